@@ -84,6 +84,50 @@ def sweep(tier, seed=0):
                         msg = f"{type(e).__name__}: {e}"
                     if msg and len(fails) < 3:
                         fails.append(rtc.Failure("map_overlap", {"n": n, "chunks": ch, "depth": [dx, dy], "boundary": bnd, "arrays": 2}, "ensures", "C26-map_overlap-equals-padded-stencil", msg))
+        # (b2) drop_axis with a boundary per axis that mixes 'none' with a padded kind; a single-block lower-rank FIRST
+        #      array next to a chunked higher-rank one (boundary 'none'): both against the unchunked computation
+        xd = np.arange(48.0).reshape(6, 8)
+        for ch in [((3, 3), (4, 4)), ((2, 2, 2), (3, 5))]:
+            for dep, bnd, drop in [({1: 2}, {1: "reflect"}, 0), ({0: 1}, {0: "periodic"}, 1), ({1: 1}, {1: "nearest", 0: "none"}, 0), ({0: 2, 1: 0}, {0: "reflect", 1: "none"}, 1)]:
+                cases += 1
+                keep = 1 - drop
+                d_ = dep.get(keep, 0)
+
+                def red(b, drop=drop):
+                    out = b.sum(axis=drop)
+                    return out
+
+                try:
+                    got = da.from_array(xd, chunks=ch).map_overlap(red, depth=dep, boundary=bnd, drop_axis=drop, dtype=xd.dtype).compute()
+                    want = xd.sum(axis=drop)
+                    msg = None if (got.shape == want.shape and np.allclose(got, want)) else f"map_overlap(sum over axis {drop}, depth={dep}, boundary={bnd}, drop_axis={drop}) on chunks {ch}: shape {got.shape} vs {want.shape}, or values differ"
+                except Exception as e:  # noqa
+                    msg = f"{type(e).__name__}: {e}"
+                if msg and len(fails) < 3:
+                    fails.append(rtc.Failure("map_overlap", {"shape": (6, 8), "chunks": ch, "depth": dep, "boundary": bnd, "drop_axis": drop}, "ensures", "C26-map_overlap-equals-padded-stencil", msg))
+        v1 = np.arange(8.0)
+        for ch2 in [((3, 3), (8,)), ((2, 2, 2), (4, 4)), ((6,), (8,))]:
+            for order in ("low-rank first", "high-rank first"):
+                cases += 1
+
+                def rowdiff(*bl):
+                    a2 = bl[0] if bl[0].ndim == 2 else bl[1]
+                    a1 = bl[1] if bl[0].ndim == 2 else bl[0]
+                    up = np.roll(a2, 1, axis=0)
+                    dn = np.roll(a2, -1, axis=0)
+                    return up + dn + a1
+
+                try:
+                    A2, A1 = da.from_array(xd, chunks=ch2), da.from_array(v1, chunks=(ch2[1],))
+                    args_ = (A1, A2) if order == "low-rank first" else (A2, A1)
+                    got = da.map_overlap(rowdiff, *args_, depth=[{0: 1, 1: 0}, {0: 0}] if order == "high-rank first" else [{0: 0}, {0: 1, 1: 0}], boundary="none", dtype=xd.dtype, align_arrays=True).compute()
+                    want = rowdiff(xd, v1)
+                    inner = slice(1, -1)
+                    msg = None if (got.shape == want.shape and np.allclose(got[inner], want[inner])) else f"map_overlap over a 1-d and a 2-d array ({order}, chunks {ch2}): interior rows differ from the unchunked computation"
+                except Exception as e:  # noqa
+                    msg = f"{type(e).__name__}: {e}"
+                if msg and len(fails) < 3:
+                    fails.append(rtc.Failure("map_overlap", {"shapes": [(8,), (6, 8)], "chunks": ch2, "order": order, "boundary": "none"}, "ensures", "C26-map_overlap-equals-padded-stencil", msg))
         # (c) sliding_window_view equals NumPy's: every chunking of short 1-D arrays x every window length, some 2-D cases
         from numpy.lib.stride_tricks import sliding_window_view as np_swv
         for n in range(2, 9 if tier == "quick" else 11):
